@@ -59,7 +59,7 @@ def main():
     pipeline.load_vela()
     liverange_lib.install()      # harness-side wrapping of live_range.extract_*, before the workers are forked
     outs = pipe_common.run_corpus(ck, n, profiles=profiles, want={"out_model": True, "extra": liverange_lib.extra},
-                                  corpus_first=False)
+                                  corpus_first=False, sweep=True)
     lines, owners, extra = [], [], []
     for o in outs:
         if "harness_exception" in o:
